@@ -84,10 +84,17 @@ def eligible(x, dec, t, d):
 
 
 def back_of(x):
-    d = dec_of(x) if x is not None else None
+    d = dec_of(x) if (x is not None and x is not MISSING) else None
     if d is None:
         return dict(ok=False, v=dict(neg=False, m=0, k=0))
     return dict(ok=True, v=d)
+
+
+class _Missing:
+    """a number that was written, whose section was read back from the file, but that is not there after loading"""
+
+
+MISSING = _Missing()
 
 
 class Collector:
@@ -209,16 +216,19 @@ def yaml_events(col, text, ph, ph2, obs, origin="", cap=None, rng=None, cells_fr
             if f == "displacement" and len(path) == 4:
                 return "t1disp", fa1["displacement"][path[3]], fa2["displacement"][path[3]] if fa2 else None
             if f == "forces" and len(path) == 5:
-                return "t1force", _get(fa1["forces"], path[3:]), _get(fa2["forces"], path[3:]) if fa2 and "forces" in fa2 else None
+                return "t1force", _get(fa1["forces"], path[3:]), \
+                    (_get(fa2["forces"], path[3:]) if "forces" in fa2 else MISSING) if fa2 else None
             if f == "supercell_energy":
-                return "t1energy", fa1["supercell_energy"], fa2.get("supercell_energy") if fa2 else None
+                return "t1energy", fa1["supercell_energy"], fa2.get("supercell_energy", MISSING) if fa2 else None
             return None
         if p0 == "dataset":
             key = path[1]
             if key in ("displacements", "forces") and len(path) == 5:
-                return "t2row", _get(d1[key], path[2:]), _get(d2[key], path[2:]) if d2 is not None and key in d2 else None
+                return "t2row", _get(d1[key], path[2:]), \
+                    (_get(d2[key], path[2:]) if key in d2 else MISSING) if d2 is not None else None
             if key == "supercell_energies" and len(path) == 3:
-                return "t2energy", d1[key][path[2]], d2[key][path[2]] if d2 is not None and key in d2 else None
+                return "t2energy", d1[key][path[2]], \
+                    ((d2[key][path[2]] if len(d2[key]) > path[2] else MISSING) if key in d2 else MISSING) if d2 is not None else None
             return None
         if p0 == "force_constants":
             if path[1] == "shape" and len(path) == 3:
@@ -258,6 +268,11 @@ def yaml_events(col, text, ph, ph2, obs, origin="", cap=None, rng=None, cells_fr
                 idx = rng.choice(len(keys), size=cap, replace=False)
                 keys = [keys[i] for i in idx]
             keep.update(keys)
+        # lines of scalar fields holding the value class {0.0, -0.0, prints-as-zero} are always judged
+        for key in order:
+            if key[1] in ("t1energy", "t2energy", "nacfactor") and any(
+                    a is not None and not isinstance(a, str) and abs(float(a)) < 1e-8 for a, _ in groups[key]):
+                keep.add(key)
         order = [k for k in order if k in keep]
     for (ln, kind) in order:
         if kind == "__shape__":
